@@ -90,6 +90,18 @@ def run(ctx):
     # transformations of larger scale (raw-unit data, late optimiser iterates): embedded squared distances of several
     # hundreds, where exp(-d) underflows unless the softmax is evaluated relative to the nearest neighbour
     cscale = float([1, 1, 4, 16, 48][int(rng.integers(0, 5))]) if kind != 'lmnn' else 1.0
+    if kind != 'lmnn' and (i // 3) % 3 == 1:
+      # two DIFFERENT samples (other class / other target) whose embeddings coincide: they differ only along a feature the
+      # transformation ignores (rank-deficient L, e.g. a truncated identity on coded features); every second time the rows are equal
+      ii, jj = 0, len(X) - 1
+      c0 = int(rng.integers(0, d))
+      X = X.copy()
+      X[jj] = X[ii]
+      if (i // 9) % 2 == 0:
+        X[jj, c0] += 1.0
+        L = L.copy()
+        L[:, c0] = 0.0
+      ctx.hist('coinciding_embeddings', kind)
     L = L * cscale
     ctx.hist('scale_of_L', cscale)
     if kind == 'nca':
